@@ -137,6 +137,9 @@ func TestC17(t *testing.T) {
 			keys, c.Gen = genK2(t, maxN), "K2"
 		}
 		c.Keys = hexes(keys)
+		if pickU(t, "opthistory", 3) == 0 {
+			c.Scrib = 1
+		}
 		// two non-empty prefixes; keep the result within the documented key length
 		longest := 0
 		for _, k := range keys {
